@@ -124,6 +124,11 @@ def domain(ctx):
 def run(ctx, cases=None):
     res = Result()
     if cases is None:
+        # model level: the invariants are satisfiable - the reference layout of Layout.tla meets every clause on every shape
+        model = tlc.run("MC_Layout", "MC_Layout_quick.cfg" if ctx.quick else "MC_Layout_thorough.cfg", ctx.work, workers=8, timeout=1500)
+        res.add_tlc(model, "reference layout")
+        if not model.ok():
+            raise tlc.TLCError("the reference layout violates %s\n%s" % (model.violated, model.out[-1500:]))
         cases, res.rule = domain(ctx)
         res.exhaustive = True
     else:
@@ -153,6 +158,8 @@ def run(ctx, cases=None):
         s = tuple_shape(c["shape"])
         for x in cl:
             failing[x] = failing.get(x, 0) + 1
+            if x.startswith("drift_"):
+                continue
             if shapes.size(s) > bound and x in KNOWN_CLAUSES and not (c.get("full") and shapes.size(s) <= 15):
                 beyond += 1
                 continue
